@@ -8,10 +8,27 @@ E3  bfs(): explicit-state breadth-first search with deduplication on a canonical
 
 import collections
 import gc
+import os
+import pickle
+import struct
+import subprocess
+import sys
 
 from . import core
 from .core import Result, Violation
 from .vloop import HarnessFault
+
+
+class Divergence(HarnessFault):
+    """A recorded prefix does not replay: at some step another set of events is on offer than when it was recorded."""
+
+
+class NotIndependent(Exception):
+    """Executions in this process influence each other (state of the library, or of the harness, outlives an execution)."""
+
+    def __init__(self, why, choices=None):
+        super().__init__(why)
+        self.choices = choices
 
 
 class Scenario:
@@ -68,7 +85,7 @@ def run_once(scn, prefix, want_digests=True):
             if k < len(prefix):
                 i, lab = prefix[k]
                 if i >= len(en) or en[i][0] != lab:
-                    raise HarnessFault("replay divergence at step %d of %s: recorded %r, enabled %r" % (
+                    raise Divergence("replay divergence at step %d of %s: recorded %r, enabled %r" % (
                         k, scn.name, (i, lab), [e[0] for e in en]))
             else:
                 i = 0
@@ -92,14 +109,25 @@ def _cost_before(x, i):
     return sum(x.points[j][x.choices[j][0]][1] for j in range(i))
 
 
-def _explore(scn, prefix, K, res, stats, cap):
+def _explore(scn, prefix, K, res, stats, cap, runner=None, confirm=None):
+    """runner executes a schedule (default: in this process); confirm executes one in an interpreter that has executed nothing
+    before (a fork of a pristine one), which is where every new kind of violation is re-executed before it is reported: the same
+    schedule must fail identically there, which shows determinism and that nothing left behind by earlier executions of this
+    process plays a part."""
+    isolated = runner is not None
+    runner = runner or run_once
     stack = [list(prefix)]
     while stack:
         pre = stack.pop()
         if stats["execs"] >= cap:
             stats["capped"] = True
             return
-        x = run_once(scn, pre)
+        try:
+            x = runner(scn, pre)
+        except Divergence as e:
+            if isolated:
+                raise
+            raise NotIndependent(str(e))
         stats["execs"] += 1
         res.evaluations += 1
         res.traces += 1
@@ -109,15 +137,25 @@ def _explore(scn, prefix, K, res, stats, cap):
         res.outcomes.add(core.digest((scn.name, x.outcome)))
         res.signatures.add(core.digest((scn.name, tuple(c[1] for c in x.choices if True))))
         if x.violations:
-            # determinism: the same schedule must fail identically
-            y = run_once(scn, x.choices, want_digests=False)
-            if [v.sig for v in y.violations] != [v.sig for v in x.violations] or y.trace != x.trace:
-                raise HarnessFault("non-deterministic replay of a violating schedule in %s: %r" % (scn.name, x.choices))
+            if any(v.sig not in res.violations for v in x.violations):
+                try:
+                    y = confirm(scn, x.choices, want_digests=False)
+                except Divergence:
+                    y = None      # not even the same events are on offer there
+                if y is None or [v.sig for v in y.violations] != [v.sig for v in x.violations] or y.trace != x.trace:
+                    if isolated:
+                        raise HarnessFault("non-deterministic replay of a violating schedule in %s: %r" % (scn.name, x.choices))
+                    raise NotIndependent("a violating schedule of %s runs differently in an interpreter that has executed nothing before" % scn.name,
+                                         x.choices)
             for v in x.violations:
                 v["case"] = core.jsonable({"scenario": scn.name, "params": scn.params, "choices": x.choices})
                 v["scenario"] = scn.name
                 v["trace"] = x.trace[-60:]
                 res.violate(v)
+            if isolated:
+                # forking for every execution is slow, and this subtree has shown what there is to show
+                stats["stopped_at_first_violation"] = True
+                return
         for i in range(len(pre), len(x.points)):
             base = _cost_before(x, i)
             for alt in range(1, len(x.points[i])):
@@ -126,12 +164,189 @@ def _explore(scn, prefix, K, res, stats, cap):
     return
 
 
+TWICE = (0, "@again-in-the-same-process")
+
+_ZYGOTE = """
+import os, pickle, struct, sys, traceback
+from mcv import explore
+import aiocoap
+if os.path.abspath(aiocoap.__file__) != os.environ["MCV_EXPECT_AIOCOAP"]:
+    sys.stderr.write("pristine interpreter imported aiocoap from %s\\n" % aiocoap.__file__)
+    sys.exit(3)
+import gc, importlib
+known_modules = set(sys.modules)
+gc.collect()
+gc.freeze()      # the forks' collections leave what exists now alone (no copying of the whole heap in every child)
+inp, out = sys.stdin.buffer, sys.stdout.buffer
+def rd():
+    hdr = inp.read(4)
+    if len(hdr) < 4:
+        return None
+    return pickle.loads(inp.read(struct.unpack("!I", hdr)[0]))
+while True:
+    req = rd()
+    if req is None:
+        break
+    scn = req[3]
+    r, w = os.pipe()
+    pid = os.fork()
+    if pid == 0:
+        os.close(r)
+        o = []
+        try:
+            for i in range(req[2]):
+                try:
+                    x = explore.run_once(scn, req[0], want_digests=req[1])
+                    o.append(("ok", x.points, x.choices, x.violations, x.trace, x.outcome, x.digests, x.steps))
+                except explore.Divergence as e:
+                    o.append(("diverged", str(e)))
+        except BaseException:
+            o = [("error", traceback.format_exc())]
+        try:
+            data = pickle.dumps(o)
+        except BaseException:
+            data = pickle.dumps([("error", "result of the execution cannot be pickled: " + traceback.format_exc())])
+        mods = "\\n".join(m for m in list(sys.modules) if m not in known_modules).encode()
+        with os.fdopen(w, "wb") as f:
+            f.write(struct.pack("!I", len(mods)) + mods + data)
+        os._exit(0)
+    os.close(w)
+    with os.fdopen(r, "rb") as f:
+        data = f.read()
+    os.waitpid(pid, 0)
+    n = struct.unpack("!I", data[:4])[0]
+    mods, data = data[4:4 + n].decode().split("\\n"), data[4 + n:]
+    # what the execution had to import first is imported here as well (importing is not executing): later forks start with it
+    for m in mods:
+        if m and m not in sys.modules:
+            try:
+                importlib.import_module(m)
+            except BaseException:
+                pass
+    known_modules = set(sys.modules)
+    gc.freeze()
+    try:
+        out.write(struct.pack("!I", len(data)) + data)
+        out.flush()
+    except BrokenPipeError:
+        os._exit(0)       # nobody is listening any more
+"""
+
+
+class Zygote:
+    """An interpreter that has imported everything and executed nothing; every execution asked of it runs in a fork of it."""
+
+    def __init__(self, scn=None):
+        import aiocoap
+        # the same module search path as this process (tree under test first, stand-ins where the check uses them)
+        env = dict(os.environ, PYTHONPATH=os.pathsep.join(p for p in sys.path if p), MCV_EXPECT_AIOCOAP=os.path.abspath(aiocoap.__file__))
+        self.p = subprocess.Popen([sys.executable, "-W", "ignore", "-c", _ZYGOTE], stdin=subprocess.PIPE, stdout=subprocess.PIPE, env=env)
+
+    def _send(self, o):
+        b = pickle.dumps(o)
+        self.p.stdin.write(struct.pack("!I", len(b)) + b)
+        self.p.stdin.flush()
+
+    def run_n(self, scn, choices, want_digests, times):
+        self.name = scn.name
+        self._send(([(int(i), lab) for i, lab in choices], want_digests, times, scn))
+        hdr = self.p.stdout.read(4)
+        if len(hdr) < 4:
+            raise HarnessFault("the pristine interpreter for %s died" % self.name)
+        out = []
+        for r in pickle.loads(self.p.stdout.read(struct.unpack("!I", hdr)[0])):
+            if r[0] == "error":
+                raise RuntimeError("execution of %s in a fork of a pristine interpreter failed:\n%s" % (self.name, r[1]))
+            if r[0] == "diverged":
+                out.append(Divergence(r[1]))
+                continue
+            x = Execution()
+            x.points, x.choices, x.violations, x.trace, x.outcome, x.digests, x.steps = r[1:]
+            out.append(x)
+        return out
+
+    def run(self, scn, choices, want_digests=True):
+        x = self.run_n(scn, choices, want_digests, 1)[0]
+        if isinstance(x, Divergence):
+            raise x
+        return x
+
+    def close(self):
+        try:
+            self.p.stdin.close()
+            self.p.wait(timeout=10)
+        except Exception:
+            self.p.kill()
+
+
+def _across_contexts(z, scn, choices):
+    """Nothing shows within any single execution of a fresh process, but executions of one process influence each other: the
+    violating schedule is executed twice in a row in one (fresh) process, twice over.  A violation in the second execution is
+    what a process shows whose earlier context went through the same schedule; it is reported with a marker in front of its
+    choices, so that the replay runs the schedule twice as well."""
+    a = z.run_n(scn, choices, False, 2)
+    b = z.run_n(scn, choices, False, 2)
+
+    def key(rs):
+        return [("diverged",) if isinstance(r, Divergence) else ([v.sig for v in r.violations], r.trace) for r in rs]
+    if key(a) != key(b):
+        raise HarnessFault("non-deterministic replay of a violating schedule in %s (also in fresh processes): %r" % (scn.name, choices))
+    second = a[1]
+    if isinstance(second, Divergence) or not second.violations:
+        raise HarnessFault("executions of %s influence each other within a process, but no violation can be reproduced in a fresh one "
+                           "(not by the schedule alone, not by running it twice): %r" % (scn.name, choices))
+    second.trace = list(second.trace) + ["note: second of two executions of this schedule in one process - state of the library outlives a context"]
+    return second, [TWICE] + list(choices)
+
+
 def explore_job(arg):
     scn, prefix, K, cap = arg
     res = Result()
     stats = {"execs": 0}
-    _explore(scn, prefix, K, res, stats, cap)
+    z = []
+
+    def confirm(scn, choices, want_digests=False):
+        if not z:
+            z.append(Zygote(scn))
+        return z[0].run(scn, choices, want_digests)
+    try:
+        try:
+            _explore(scn, prefix, K, res, stats, cap, None, confirm)
+        except NotIndependent as e:
+            # start over, with every execution in a fork of an interpreter that has executed nothing
+            res = Result()
+            stats = {"execs": 0, "isolated": str(e)}
+            if not z:
+                z.append(Zygote(scn))
+            try:
+                _explore(scn, prefix, K, res, stats, cap, z[0].run, z[0].run)
+            except Divergence as d:
+                if stats["execs"]:
+                    raise
+                # the prefix this job was given (recorded in a process that had executed other things before) does not exist in
+                # a fresh process: nothing to explore below it
+                stats["unreproduced"] = "the subtree's prefix was recorded under the influence of earlier executions: %s" % d
+            if not res.violations and e.choices is not None:
+                try:
+                    x, choices = _across_contexts(z[0], scn, e.choices)
+                except HarnessFault as hf:
+                    # nothing to show from this subtree; whether that is a fault is decided over all subtrees (explore_schedules)
+                    stats["unreproduced"] = str(hf)
+                    x, choices = Execution(), []
+                    x.violations = []
+                for v in x.violations:
+                    v["case"] = core.jsonable({"scenario": scn.name, "params": scn.params, "choices": choices})
+                    v["scenario"] = scn.name
+                    v["trace"] = x.trace[-60:]
+                    res.violate(v)
+    finally:
+        for zz in z:
+            zz.close()
     res.scenarios[scn.name] = {"executions": stats["execs"], "K": K}
+    if stats.get("isolated"):
+        res.scenarios[scn.name]["isolated_executions"] = stats["isolated"]
+    if stats.get("unreproduced"):
+        res.scenarios[scn.name]["unreproduced"] = stats["unreproduced"]
     if stats.get("capped"):
         res.caps.append("%s: execution cap %d hit in a subtree (K=%d not completed)" % (scn.name, cap, K))
     return res
@@ -141,12 +356,21 @@ def explore_schedules(scenarios, K, jobs=None, cap=2_000_000):
     """Explore every scenario completely up to K deviations.  Work is split at the first deviation."""
     work = []
     total = Result()
+    zy = []
     for scn in scenarios:
         x = run_once(scn, [])
         # determinism self-check of the default run
         y = run_once(scn, [])
         if x.trace != y.trace or x.choices != y.choices:
-            raise HarnessFault("default run of %s is not deterministic" % scn.name)
+            # executions influence each other already here: take the default run from a process that has executed nothing (the
+            # jobs find that out for themselves and isolate their executions)
+            if not zy:
+                zy.append(Zygote())
+            x = zy[0].run(scn, [])
+            y = zy[0].run(scn, [])
+            if x.trace != y.trace or x.choices != y.choices:
+                zy[0].close()
+                raise HarnessFault("default run of %s is not deterministic" % scn.name)
         if len(total.samples) < 6:
             total.sample({"scenario": scn.name, "params": scn.params, "default_schedule": [c[1] for c in x.choices][:40]})
         work.append((scn, [], 0, cap))
@@ -155,9 +379,13 @@ def explore_schedules(scenarios, K, jobs=None, cap=2_000_000):
                 for alt in range(1, len(x.points[i])):
                     if _cost_before(x, i) + x.points[i][alt][1] <= K:
                         work.append((scn, x.choices[:i] + [(alt, x.points[i][alt][0])], K, cap))
+    for z in zy:
+        z.close()
     # K=0 job explores only the default run (budget 0), the others their subtree
     res = core.prun(explore_job, work, jobs)
     total.merge(res)
+    unrep = [v["unreproduced"] for v in res.scenarios.values() if isinstance(v, dict) and v.get("unreproduced")]
+    total.unreproduced += unrep[:3]      # a fault of the whole check unless it shows violations elsewhere (mcv/cli.py)
     for scn in scenarios:
         if scn.name in total.scenarios:
             total.scenarios[scn.name]["K"] = K
@@ -167,7 +395,17 @@ def explore_schedules(scenarios, K, jobs=None, cap=2_000_000):
 
 def replay_schedule(scn, choices):
     pre = [(int(i), lab) for i, lab in choices]
-    x = run_once(scn, pre, want_digests=False)
+    try:
+        if pre and tuple(pre[0]) == TWICE:
+            # found as the second of two executions in one process (see _across_contexts)
+            pre = pre[1:]
+            run_once(scn, pre, want_digests=False)
+        x = run_once(scn, pre, want_digests=False)
+    except Divergence as e:
+        # the tree at hand does not offer the recorded events (the schedule was recorded against a tree that behaves differently):
+        # the recorded violation does not happen here
+        print("     the recorded schedule cannot be followed on this tree:", e)
+        return []
     for line in x.trace:
         print("    ", line)
     return x.violations
